@@ -127,16 +127,27 @@ def _walk(old, actx, path=()):
         yield from _walk(ch, actx.child(row) if cov else None, path + (row,))
 
 
-def _path_covered(p, actx, rev, exitw):
+def _path_covered(p, actx, rev, exitw, old=None, ctx=None):
+    cur_old, c = old, ctx
     for i, row in enumerate(p):
         last = i == len(p) - 1
         if last and exitw and row == exitw and i > 0:
             return True
         if actx.covered(row):
             actx = actx.child(row)
+            if c is not None:
+                cl = c.classify(row)
+                c = c.child(cl[0], row) if cl is not None else None
+            cur_old = cur_old.get(row) if cur_old is not None else None
             continue
         if last and row.startswith(rev + " ") and actx.covered(row[len(rev) + 1:]):
             return True
+        if last and row.startswith(rev + " ") and cur_old is not None and c is not None:
+            # an ACL filters the LINES of the diff; the removal command of a line may be shorter than the line (a rule without a key
+            # placeholder: 'delta1 a' is removed by 'undo delta1'): covered if it removes a covered line of the old configuration
+            ident = c.ident(row[len(rev) + 1:])
+            if ident is not None and any(c.ident(r) == ident and actx.covered(r) for r in cur_old):
+                return True
         return False
     return True
 
@@ -177,9 +188,9 @@ def check(case):
     if paths:
         labels.append("patch-nonempty")
     for p in paths:
-        if not _path_covered(p, actx, rev, exitw):
+        if not _path_covered(p, actx, rev, exitw, old, ctx):
             raise Violation("uncovered-command", f"command path {p!r} is not covered by the combined ACL", det)
-        if fctx is not None and not _path_covered(p, fctx, rev, exitw):
+        if fctx is not None and not _path_covered(p, fctx, rev, exitw, old, ctx):
             raise Violation("uncovered-command", f"command path {p!r} is not covered by the filter ACL", det)
     try:
         got = apply(paths, old, ctx, rev, exitw)
